@@ -118,7 +118,7 @@ theorem strLt_prefix_right {pre : Name} (x y : Name) {w : Name} (h : ¬ pre <+: 
 
 theorem digitChar_spec (d : Nat) (h : d < 10) :
     isDigit (digitChar d) = true ∧ (digitChar d).toNat - 48 = d ∧ digitChar d ≠ '.' ∧
-      (digitChar d).toLower = digitChar d := by
+      lowerC (digitChar d) = digitChar d := by
   match d, h with
   | 0, _ => decide
   | 1, _ => decide
@@ -147,7 +147,7 @@ theorem digitsVal_snoc (xs : List Char) (c : Char) (acc : Nat) :
 
 theorem natDigitsF_spec (f n : Nat) (h : n < f) :
     digitsVal (natDigitsF f n) 0 = some n ∧ natDigitsF f n ≠ [] ∧
-      (∀ c ∈ natDigitsF f n, isDigit c = true ∧ c ≠ '.' ∧ c.toLower = c) := by
+      (∀ c ∈ natDigitsF f n, isDigit c = true ∧ c ≠ '.' ∧ lowerC c = c) := by
   induction f generalizing n with
   | zero => omega
   | succ f ih =>
@@ -177,7 +177,7 @@ theorem natDigitsF_spec (f n : Nat) (h : n < f) :
 
 theorem natDigits_spec (n : Nat) :
     digitsVal (natDigits n) 0 = some n ∧ natDigits n ≠ [] ∧
-      (∀ c ∈ natDigits n, isDigit c = true ∧ c ≠ '.' ∧ c.toLower = c) :=
+      (∀ c ∈ natDigits n, isDigit c = true ∧ c ≠ '.' ∧ lowerC c = c) :=
   natDigitsF_spec (n + 1) n (by omega)
 
 theorem natDigits_noDot (n : Nat) : '.' ∉ natDigits n :=
@@ -270,7 +270,9 @@ def Code.idx : Code → Nat
 
 /-- what the comparator proof needs from the input ports of a node type: no dot in a (lower-cased) port name and
     no two ports that differ only by case (Go field names; checked on every registered type by the
-    `c12.holds.ports_distinct` oracle) -/
+    `c12.holds.ports_distinct` oracle).  RESTRICTION: `lower` is Go's ToLower / EqualFold only on the alphabet of
+    `lowerC` (ASCII, Latin-1 letters, Greek without final sigma, Cyrillic); for port names outside it the theorems about
+    `depLess` say nothing about the Go comparator (no registered type has such a name). -/
 structure PortsOK (T : NodeType) : Prop where
   noDot : ∀ p ∈ T.scal.map (·.1) ++ T.arrs.map (·.1), '.' ∉ lower p
   distinct : ∀ p ∈ T.scal.map (·.1) ++ T.arrs.map (·.1), ∀ q ∈ T.scal.map (·.1) ++ T.arrs.map (·.1),
